@@ -61,3 +61,71 @@ Print Assumptions C08_pagelinks.
 Print Assumptions C08_pagelinks_nodup.
 Print Assumptions C08_neighbours.
 Print Assumptions C08_nonvacuous.
+
+(* ---- on the code translated from the source on every run (GenTraphQ.v: Traph.get_webentity_pagelinks(_iter),
+   get_webentity_outlinks(_iter), get_webentity_inlinks(_iter) and LRUTrie.windup_lru_for_webentity with its generator inlined;
+   over the translated webentity_dfs_iter, weighted / deduped link traversals, lru_node and windup_lru).  For EVERY history, on
+   any trie storage holding the trie file of the state reached and any link storage holding its link file: the translated page-link
+   query (w <> 0) answers exactly the SPECIFICATION's link set for every switch triple and is refused (None) exactly when the
+   specification refuses (all switches off, an absent prefix); the translated cited / citing queries answer lists without
+   repetition whose elements are the specification's neighbour webentities (None = no webentity at the other end); nothing
+   is written.  Size hypotheses: both files below 2^64 bytes. *)
+From Traph Require GenTraphQ GenTraphQFacts GenTrieFacts GenLinksFacts TraceDefs GenStorage.
+Import GenTraphQ GenTraphQFacts GenTrieFacts GenLinksFacts GenStorage.
+Theorem C08_source_pagelinks : forall d rs h, wf_rules rs -> Forall wf_op h ->
+  let s := run d rs h in let a := srun d rs h in
+  forall sg sgl w ps inb int outb,
+    trep (TraceDefs.files_of s) sg -> lrep (stubs s) sgl -> fits (nb s * bsz) -> fits (saddr (length (stubs s))) ->
+    Forall wf_lru ps -> w <> 0 ->
+    match py_traph_get_webentity_pagelinks sg sgl w ps inb int outb, s_pagelinks w ps inb int outb a with
+    | Some (sg', x), ROk y => (forall e, In e x <-> In e y) /\ pm_array sg' = pm_array sg
+    | None, RRefused => True
+    | _, _ => False
+    end.
+Proof.
+  intros d rs h H1 H2 s a sg sgl w ps inb int outb Hrep Hl Hf1 Hf2 Hps Hw.
+  pose proof (py_traph_get_webentity_pagelinks_spec d rs h H1 H2 sg sgl w ps inb int outb Hrep Hl Hf1 Hf2 Hps Hw) as H.
+  cbv zeta in H. fold s in H.
+  pose proof (C08_pagelinks d rs h H1 H2 w ps inb int outb Hps) as Hm. cbv zeta in Hm. fold s a in Hm.
+  destruct (webentity_pagelinks w ps inb int outb s) as [| |x].
+  - rewrite H. destruct (s_pagelinks w ps inb int outb a); first [exact Hm | destruct Hm].
+  - rewrite H. destruct (s_pagelinks w ps inb int outb a); first [exact Hm | destruct Hm].
+  - destruct H as (sg' & E & _ & Harr). rewrite E.
+    destruct (s_pagelinks w ps inb int outb a) as [| |y]; first [split; [exact Hm|exact Harr] | destruct Hm].
+Qed.
+Theorem C08_source_neighbours : forall d rs h, wf_rules rs -> Forall wf_op h ->
+  let s := run d rs h in let a := srun d rs h in
+  forall sg sgl w ps,
+    trep (TraceDefs.files_of s) sg -> lrep (stubs s) sgl -> fits (nb s * bsz) -> fits (saddr (length (stubs s))) ->
+    Forall wf_lru ps ->
+    match py_traph_get_webentity_outlinks sg sgl w ps, s_neighbours true ps a with
+    | Some (sg', x), ROk y => exists l, x = map lift_we l /\ set_eq l y /\ pm_array sg' = pm_array sg
+    | None, RRefused => True
+    | _, _ => False
+    end /\
+    match py_traph_get_webentity_inlinks sg sgl w ps, s_neighbours false ps a with
+    | Some (sg', x), ROk y => exists l, x = map lift_we l /\ set_eq l y /\ pm_array sg' = pm_array sg
+    | None, RRefused => True
+    | _, _ => False
+    end.
+Proof.
+  intros d rs h H1 H2 s a sg sgl w ps Hrep Hl Hf1 Hf2 Hps.
+  destruct (py_traph_get_webentity_neighbours_spec d rs h H1 H2 sg sgl w ps Hrep Hl Hf1 Hf2 Hps) as [Ho Hi].
+  fold s in Ho, Hi. split.
+  - pose proof (C08_neighbours d rs h H1 H2 true ps Hps) as Hm. cbv zeta in Hm. fold s a in Hm.
+    destruct (webentity_neighbours true ps s) as [| |x].
+    + rewrite Ho. destruct (s_neighbours true ps a); first [exact Hm | destruct Hm].
+    + rewrite Ho. destruct (s_neighbours true ps a); first [exact Hm | destruct Hm].
+    + destruct Ho as (sg' & E & _ & Harr). rewrite E.
+      destruct (s_neighbours true ps a) as [| |y]; try (destruct Hm; fail).
+      exists x. split; [reflexivity|]. split; [exact Hm|exact Harr].
+  - pose proof (C08_neighbours d rs h H1 H2 false ps Hps) as Hm. cbv zeta in Hm. fold s a in Hm.
+    destruct (webentity_neighbours false ps s) as [| |x].
+    + rewrite Hi. destruct (s_neighbours false ps a); first [exact Hm | destruct Hm].
+    + rewrite Hi. destruct (s_neighbours false ps a); first [exact Hm | destruct Hm].
+    + destruct Hi as (sg' & E & _ & Harr). rewrite E.
+      destruct (s_neighbours false ps a) as [| |y]; try (destruct Hm; fail).
+      exists x. split; [reflexivity|]. split; [exact Hm|exact Harr].
+Qed.
+Print Assumptions C08_source_pagelinks.
+Print Assumptions C08_source_neighbours.
